@@ -41,7 +41,9 @@ META = {
         "weights); peaks/ANN outputs = multiplier, bias, weights; hidden "
         "neurons = bias, weights (layer by layer, neuron by neuron)",
         "partially linear: states within 1e-9 (relative, squared distance) "
-        "of a tie between the two nearest anchors are skipped and counted",
+        "of a tie between the two nearest anchors (or whose squared "
+        "distances differ by less than 1e-290, the underflow range) are "
+        "skipped and counted",
         "table_3_1_lgpc: points where rounding can move the denominator "
         "across zero or the sine argument by more than 1e-3 are skipped and "
         "counted",
@@ -165,7 +167,7 @@ def check_plin(ctx: Ctx, case: dict) -> None:
     if ref["tie"]:
         # either law is acceptable, but it must be one of the tied laws
         cands = [i for i in range(k) if ref["dists"][i] <=
-                 ref["dists"][ref["second"]] * (1 + 4e-9)]
+                 ref["dists"][ref["second"]] * (1 + 4e-9) + 1e-290]
         ok = any(_close(got, ref["values"][i][0],
                         REL * ref["values"][i][1] + TINY) for i in cands)
         require(ok, lambda: f"{name} {dim}-D: output {got!r} is the law of "
